@@ -388,8 +388,11 @@ def standard_check(mod, tier, seed, cfg='rel', floors=None, replay=None):
     rep = Report(mod.ID, tier, seed)
     rep.rule = mod.RULE
     rep.assumptions = list(getattr(mod, 'ASSUMPTIONS', []))
+    bulk_replay = None
     if replay:
         lines = [l.rstrip('\n') for l in open(replay) if l.strip() and not l.startswith('#')]
+        bulk_replay = [l for l in lines if l.startswith('bulk ')]
+        lines = [l for l in lines if not l.startswith('bulk ')]
     else:
         lines = gen_rounds(mod, tier, seed)
     wd = workdir(mod.ID)
@@ -407,6 +410,12 @@ def standard_check(mod, tier, seed, cfg='rel', floors=None, replay=None):
     extra = None
     if hasattr(mod, 'extra_coverage'):
         extra = mod.extra_coverage(lines, results)
+    if hasattr(mod, 'BULK'):
+        from . import bulk
+        bcov = bulk.for_property(rep, mod, tier, seed, wd, replay_lines=bulk_replay)
+        if bcov:
+            extra = dict(extra or {})
+            extra['bulk_differential'] = bcov
     return rep.finish(floors or getattr(mod, 'FLOORS', None), extra)
 
 
